@@ -361,7 +361,8 @@ class Engine(Interp, ExecMixin, EvalMixin, CallMixin, BuiltinMixin):
             for i, g in enumerate(must_raise):
                 self.oblige(st, f"{short}#must-raise-if[{i}]", z3.Not(g), "raises", assume_after=False)
             for i, e in enumerate(c.ensures):
-                self.oblige(st, f"{short}#post[{i}]", self.truthy(st, self.ev_spec(st, e)), "post", assume_after=False,
+                # postconditions are proved in order; an earlier one may be used for a later one
+                self.oblige(st, f"{short}#post[{i}]", self.truthy(st, self.ev_spec(st, e)), "post", assume_after=True,
                             meta={"clause": ast.unparse(e)})
         else:
             st.trail.append("raise " + raised.cls)
